@@ -81,7 +81,10 @@ def build(m, index_pad=pad16):
     runtime += struct.pack("<9H", len(meshes), len(attr_offs), len(submeshes), len(mat_offs), len(bone_offs), len(bone_tables),
                            len(shapes), len(shape_meshes), len(shape_values))
     runtime += struct.pack("<BBHBB", lod_count, m.get("flags1", 0x02), 0, 0, m.get("flags2", 0))
-    runtime += struct.pack("<ffHHBBBBHHH6x", 0.0, 0.0, 0, 0, 0, 0, 0, 0, 0, 0, 0)
+    # opaque header values (clip distances as bit patterns, unknown words, material indices): carried, never interpreted
+    oq = m.get("opaque") or {}
+    hv = (list(oq.get("header", [])) + [0] * 11)[:11]
+    runtime += struct.pack("<IIHHBBBBHHH6x", hv[0], hv[1], hv[2], 0, hv[4] & 255, hv[5] & 255, hv[6] & 255, hv[7] & 255, hv[8], hv[9], hv[10])
     lod_pos = len(runtime)
     runtime += b"\0" * 180
     mesh_pos = len(runtime)
@@ -111,9 +114,11 @@ def build(m, index_pad=pad16):
     for x in bone_map:
         runtime += struct.pack("<H", x)
     pad = m.get("padding", 0)
-    runtime += bytes([pad]) + b"\0" * pad
-    runtime += struct.pack("<32f", *([0.0] * 32))
-    runtime += struct.pack("<%df" % (8 * len(bone_offs)), *([0.0] * (8 * len(bone_offs))))
+    runtime += bytes([pad]) + bytes(m.get("padding_bytes", [0] * pad))[:pad].ljust(pad, b"\0")
+    # four model bounding boxes and one per bone: 8 floats each, given as bit patterns (default 0)
+    boxes = m.get("box_bits") or [0] * (32 + 8 * len(bone_offs))
+    boxes = (list(boxes) + [0] * (32 + 8 * len(bone_offs)))[:32 + 8 * len(bone_offs)]
+    runtime += struct.pack("<%dI" % len(boxes), *boxes)
 
     data_offset = 0x44 + len(decl_bytes) + len(runtime)
     data = bytearray()
@@ -148,7 +153,8 @@ def build(m, index_pad=pad16):
         data += b"\0" * (ilen - 2 * nidx)
         voff[li], vsize[li] = data_offset + vstart, vlen
         ioff[li], isize[li] = data_offset + istart, ilen
-        lod_recs.append(struct.pack("<HHff8HIII4xIIII", mi, len(lod["meshes"]), 0.0, 0.0, *([0] * 8), 0, ioff[li], 0,
+        lq = (list((oq.get("lods") or [[]] * 3)[li]) + [0] * 12)[:12]      # ranges (bit patterns), water / shadow / fog words, polygon count
+        lod_recs.append(struct.pack("<HHII8HIII4xIIII", mi, len(lod["meshes"]), lq[0], lq[1], *[x & 0xFFFF for x in lq[2:10]], 0, ioff[li], lq[10],
                                     vlen, ilen, voff[li], ioff[li]))
         for mesh in lod["meshes"]:
             mesh_recs.append(struct.pack("<H2xIHHHHI3I3BB", mesh["vcount"], len(mesh["indices"]), mesh["material"],
